@@ -42,7 +42,120 @@ PROPS = {
     "C05": dict(ops=["map", "filter", "scan", "take", "skip", "merge", "concat", "combine",
                      "flatten", "share"], kinds=["C05"], thms="C05"),
     "C17": dict(ops=ALL_SRC + ["for_each"], kinds=["C17"], thms="C17"),
+    "C07": dict(ops=UNARY, kinds=["C07"], thms="C07"),
+    "C08": dict(ops=["merge"], kinds=["C08"], thms="C08"),
+    "C09": dict(ops=["concat"], kinds=["C09"], thms="C09"),
+    "C10": dict(ops=["combine"], kinds=["C10"], thms="C10"),
+    "C11": dict(ops=["flatten"], kinds=["C11"], thms="C11"),
+    "C12": dict(ops=["share"], kinds=["C12"], thms="C12", skip_classes=["NestedFanout"]),
+    "C14": dict(ops=["from_iter", "map", "filter", "scan", "take", "skip", "concat", "flatten"],
+                kinds=["C14"], thms="C14", gen_extra=["env=pull"]),
+    "C15": dict(ops=["from_iter"], kinds=["C15"], thms="C15"),
+    "C16": dict(ops=["interval"], kinds=["C16"], thms="C16"),
 }
+
+NON_SHARE = [o for o in ALL_SRC if o != "share"] + ["for_each"]
+
+
+def strip_sub(tok, k):
+    return tok[2:] if tok.startswith("%d:" % k) else None
+
+
+def c13_extra(spec, scripts, real, variant, tier):
+    """C13 directly on the crate: the projection of a two-subscription run onto each
+    subscription equals the crate's own solo run of that subscription's moves."""
+    solos, index = [], []
+    for n, s in enumerate(scripts):
+        h, _, ms = s.partition("|")
+        if "subs=2" not in h:
+            continue
+        for k in (0, 1):
+            mine = [t[2:] for t in ms.split() if t.startswith("%d:" % k)]
+            solos.append("%s| %s" % (h.replace("subs=2", "subs=1"), " ".join(mine)))
+            index.append((n, k))
+    viols = []
+    if solos:
+        chunks = chunked(solos, 16)
+        res = []
+        for part in parallel_map(lambda ch: run_real(ch, variant) if ch else [], chunks):
+            res += part
+        for (n, k), solo, tr in zip(index, solos, res):
+            proj = " ".join(t[2:] for t in real[n].split() if t.startswith("%d:" % k))
+            if proj != tr.strip():
+                viols.append((scripts[n], "C13:Proj:%d" % k,
+                              dict(solo_script=solo, solo_trace_on_crate=tr,
+                                   projection_of_two_subscription_run=proj,
+                                   two_subscription_trace=real[n])))
+    return viols, dict(projection_checks=len(solos), projection_failures=len(viols))
+
+
+def tracing_site_audit():
+    """static tripwire for C20: every item gated on the tracing feature is a span/Debug item"""
+    import glob
+    problems = []
+    allowed = [
+        r"^let \w*span\w* = \w*span\w*\.clone\(\);$",
+        r"^let \w+_span = Span::current\(\);$",
+        r"^let _\w+_entered = \w+_span\.enter\(\);$",
+        r"^use \{std::fmt, tracing::Span\};$",
+        r"^use \{$",
+        r"^use [\w:{}, ]+;$",
+        r"^\w+: [\w:]*Debug[\w:+ ']*,$",
+        r"^\[?<?\$?\w+>?\]?: [\w:]*Debug[\w:+ ']*,$",
+        r"^\$T: fmt::Debug \+ 'static,$",
+        r"^\[<S \$T>\]: fmt::Debug \+ 'static,$",
+        r"^let nursery = nursery$",
+        r"^\w+: Instrument \+ fmt::Debug \+ 'static,$",
+    ]
+    for f in sorted(glob.glob("/repo/src/*.rs")):
+        lines = open(f).read().splitlines()
+        for n, line in enumerate(lines):
+            if re.search(r'#\[cfg\(feature = "tracing"\)\]', line):
+                rest = line.split(']', 1)[1].strip() if line.strip().endswith(",") or "]" in line else ""
+                rest = re.sub(r'^.*#\[cfg\(feature = "tracing"\)\]', "", line).strip()
+                nxt = rest if rest else lines[n + 1].strip()
+                if not any(re.match(a, nxt) for a in allowed):
+                    problems.append("%s:%d: item gated on the tracing feature is not a span/Debug item: %s"
+                                    % (os.path.relpath(f, "/repo"), n + 1, nxt))
+    return problems
+
+
+def c20_extra(spec, scripts, real, variant, tier):
+    """the same scripts on the build with the tracing feature, without and with a subscriber"""
+    viols = []
+    env = {"CB_EVALS": "1"}
+
+    def run_variant(v):
+        out = []
+        for part in parallel_map(
+                lambda ch: [l.strip() for l in sh([BIN + "/cbharness-" + v, "seq"], inp="\n".join(ch) + "\n",
+                                                  env=env).stdout.split("\n")][:len(ch)] if ch else [],
+                chunked(scripts, 16)):
+            out += part
+        return out
+    base = run_variant("plain")
+    cov = {}
+    for v in ("tracing", "subscriber"):
+        other = run_variant(v)
+        nd = 0
+        for s, a, b in zip(scripts, base, other):
+            if a != b:
+                nd += 1
+                if len(viols) < 5:
+                    viols.append((s, "C20:Diff:%s" % v, dict(trace_default_build=a, **{"trace_%s_build" % v: b})))
+        cov["differences_%s_vs_default" % v] = nd
+    cov["builds_compared"] = ["default features", "--features tracing (no subscriber)",
+                              "--features tracing + tracing-subscriber installed at TRACE level"]
+    cov["static_tracing_site_audit"] = tracing_site_audit()
+    return viols, cov
+
+
+PROPS.update({
+    "C13": dict(ops=NON_SHARE, kinds=["C13"], thms="C13", gen_extra=["subs=2"], extra_check=c13_extra,
+                builds=("plain",)),
+    "C20": dict(ops=ALL_SRC + ["for_each"], kinds=["C20"], thms="C20", extra_check=c20_extra,
+                builds=("plain", "tracing", "subscriber"), level="translation_validation"),
+})
 
 ALLOWED_AXIOMS = set()  # the development is axiom-free; anything printed is reported
 
@@ -307,10 +420,15 @@ def suppressed_by(known, op, tok, classes):
 
 # ------------------------------------------------------------------ shrinking and replay
 
+SKIP_CLASSES = []
+
+
 def violates(script, variant, prop_kinds, known):
     tr = run_real([script], variant)[0]
     (vs, cl), = monitor([script], [tr])
     op = header_op(script)
+    if any(k in cl for k in SKIP_CLASSES):
+        return [], tr
     bad = [v for v in vs if kind_of(v)[0] in prop_kinds and not suppressed_by(known, op, v, cl)]
     return bad, tr
 
@@ -409,7 +527,9 @@ def seq_check(prop, tier, seed, t0, spec=None):
     kinds = spec["kinds"]
     variant = spec.get("variant", "plain")
     known = load_known()
-    build((variant,))
+    global SKIP_CLASSES
+    SKIP_CLASSES = spec.get("skip_classes", [])
+    build(spec.get("builds", (variant,)))
     audit = coq_audit(spec.get("thms", prop))
     n_rand = spec.get("n_rand", 16000 if tier == "quick" else 300000)
     depth = spec.get("depth", 6 if tier == "quick" else 8)
@@ -417,11 +537,15 @@ def seq_check(prop, tier, seed, t0, spec=None):
     n_corpus = len(scripts)
     en = enum_scripts(ops, depth)
     scripts += en
-    scripts += gen_scripts(spec.get("gen_ops", ops), seed, n_rand)
+    scripts += gen_scripts(list(spec.get("gen_ops", ops)) + spec.get("gen_extra", []), seed, n_rand)
     extra = spec.get("extra_scripts")
     if extra:
         scripts += extra(tier, seed)
     model, real, mon = run_all(scripts, variant)
+    extra_viols = []
+    extra_cov = {}
+    if spec.get("extra_check"):
+        extra_viols, extra_cov = spec["extra_check"](spec, scripts, real, variant, tier)
 
     mismatches = []
     viol_scripts = []
@@ -436,6 +560,8 @@ def seq_check(prop, tier, seed, t0, spec=None):
             distinct.add(op + "|" + rt)
         if mt != rt:
             mismatches.append((s, mt, rt))
+        if any(k in cl for k in spec.get("skip_classes", [])):
+            continue   # outside the quantifier of this property
         for v in vs:
             if kind_of(v)[0] in kinds:
                 f = suppressed_by(known, op, v, cl)
@@ -463,8 +589,14 @@ def seq_check(prop, tier, seed, t0, spec=None):
         out_lines.append("VIOLATION property=%s replay=%s" % (prop, path))
         status = 1
         nviol += 1
+    for s, tok, payload in extra_viols[:3]:
+        path = write_replay(prop, dict(kind="failing-history", property=prop, script=s, violations=[tok],
+                                       variant=variant, seed=seed, detail=payload))
+        out_lines.append("VIOLATION property=%s replay=%s" % (prop, path))
+        status = 1
+        nviol += 1
     # 2. broken obligations without a failing input
-    if not viol_scripts:
+    if not viol_scripts and not extra_viols:
         if mismatches:
             s, mt, rt = mismatches[0]
             a, b = mt.split(), rt.split()
@@ -510,6 +642,7 @@ def seq_check(prop, tier, seed, t0, spec=None):
         correspondence_mismatches=len(mismatches),
         scripts_per_component=hist_ops,
         known_findings_seen=sorted(known_hits.keys()),
+        **extra_cov,
         samples=[dict(script=s, crate_trace=r) for s, r in list(zip(scripts, real))[n_corpus:n_corpus + 2] +
                  list(zip(scripts, real))[-2:]],
     )
@@ -542,7 +675,271 @@ def replay(prop, path):
     return 0
 
 
-CUSTOM = {}
+STATIC_PIPES = [
+    "xs=1,2,3 inf=- stages=map:2:1 static=1",
+    "xs=- inf=- stages=map:2:1 static=1",
+    "xs=1,2,3,4,6,8 inf=- stages=filter:2:0;map:1:3;take:2 static=2",
+    "xs=1,3,5 inf=- stages=filter:2:0;map:1:3;take:2 static=2",
+    "xs=5,1,2,3 inf=- stages=skip:1;scan:0:0;map:3:0 static=3",
+    "xs=5 inf=- stages=skip:1;scan:0:0;map:3:0 static=3",
+]
+
+
+def c06_check(prop, tier, seed, t0):
+    """closed pull pipelines: the real crate against the lazy pull interpreter of coq/theories/Pipe.v
+    (proved equal to the list function `sem` in PipeCorrect.v)"""
+    build(("plain",))
+    audit = coq_audit("C06")
+    n = 20000 if tier == "quick" else 400000
+    r = sh([DRIVER, "genpipe", str(seed), str(n)])
+    if r.returncode != 0:
+        raise Fail("pipeline generation failed: " + r.stderr[-1000:])
+    pipes = [l for l in open(V + "/corpus/pipes.txt").read().splitlines() if l.strip() and not l.startswith("#")] \
+        if os.path.exists(V + "/corpus/pipes.txt") else []
+    pipes += STATIC_PIPES + [l for l in r.stdout.splitlines() if l.strip()]
+
+    def work(ch):
+        if not ch:
+            return [], []
+        m = sh([DRIVER, "pipe"], inp="\n".join(ch) + "\n")
+        h = sh([BIN + "/cbharness-plain", "pipe"], inp="\n".join(ch) + "\n", timeout=1800)
+        if m.returncode != 0 or h.returncode != 0:
+            raise Fail("pipeline run failed: " + (m.stderr + h.stderr)[-1000:])
+        return m.stdout.splitlines()[:len(ch)], h.stdout.splitlines()[:len(ch)]
+    model, real = [], []
+    for m, h in parallel_map(work, chunked(pipes, 16)):
+        model += m
+        real += h
+    bad = [(p, m, h) for p, m, h in zip(pipes, model, real) if m.strip() != h.strip()]
+    out, status = [], 0
+    for p, m, h in bad[:3]:
+        path = write_replay(prop, dict(kind="failing-history", property=prop, pipeline=p,
+                                       expected_from_list_function=m, observed_on_crate=h, seed=seed,
+                                       how="F: crate's for_each as consumer, P: for_each-like probe that sees completion; "
+                                           "user:x = argument of f, nexts = Iterator::next calls on the input"))
+        out.append("VIOLATION property=%s replay=%s" % (prop, path))
+        status = 1
+    if not bad and audit["problems"]:
+        path = write_replay(prop, dict(kind="proof-broken", property=prop, problems=audit["problems"]))
+        out.append("VIOLATION property=%s replay=%s no-failing-input-found" % (prop, path))
+        status = 1
+    depth_hist = {}
+    for p in pipes:
+        st = re.search(r"stages=(\S+)", p).group(1)
+        d = 0 if st == "-" else len(st.split(";"))
+        depth_hist[d] = depth_hist.get(d, 0) + 1
+    cov = dict(
+        obligations=max(1, audit["obligations"]), discharged=audit["discharged"],
+        checker_cmd="coqc -Q coq/theories CB coq/theories/Properties/C06.v (after make -C coq)",
+        trusted_base=TRUSTED_BASE, theorems=audit["theorems"], axioms=audit["axioms"],
+        audit_problems=audit["problems"],
+        evaluations=len(pipes), distinct_nontrivial=len(set(p for p in pipes if "stages=-" not in p)),
+        rule="random pipelines of 0-5 stages over map/filter/scan/take/skip/concat!(append, prepend)/map-then-flatten, "
+             "inputs of 0-8 items or unbounded (only when a take bounds the program), plus fixed pipelines written with "
+             "pipe!; each is run on the real crate twice (for_each; a probe that sees completion) and compared with "
+             "the lazy pull interpreter (arguments of f in order, number of Iterator::next calls, completion); "
+             "non-trivial = at least one stage, distinct by program text",
+        traces_validated_against_impl=len(pipes) - len(bad), correspondence_mismatches=len(bad),
+        pipeline_depth_histogram=depth_hist,
+        samples=[dict(pipeline=p, crate=h) for p, h in list(zip(pipes, real))[:2] + list(zip(pipes, real))[-2:]],
+    )
+    write_evidence(prop, tier, seed, t0, cov, len(bad),
+                   assumptions=["pure user closures", "composition to arbitrary depth is validated, not proved: see level text"])
+    for l in out:
+        print(l)
+    return status
+
+
+THREAD_EXPLORE = {
+    "take": ["sys=take fixed=1 n=1 th=2 q0=1 q1=2 f0=N f1=N",
+             "sys=take fixed=1 n=1 th=2 q0=1,2 q1=3 f0=N f1=N",
+             "sys=take fixed=1 n=2 th=2 q0=1,2 q1=3,4 f0=N f1=N",
+             "sys=take fixed=1 n=2 th=3 q0=1 q1=3 q2=5 f0=N f1=N f2=N",
+             "sys=take fixed=1 n=3 th=3 q0=1,2 q1=3 q2=5 f0=N f1=N f2=N",
+             "sys=take fixed=1 n=1 th=3 q0=1,2 q1=3 q2=5 f0=N f1=N f2=N"],
+    "merge": ["sys=merge n=2 th=2 q0=1,3 q1=2 f0=T f1=T",
+              "sys=merge n=2 th=2 q0=1,3 q1=2 f0=T f1=E101",
+              "sys=merge n=2 th=2 q0=- q1=- f0=T f1=T",
+              "sys=merge n=3 th=3 q0=1 q1=- q2=3 f0=T f1=E101 f2=T",
+              "sys=merge n=3 th=3 q0=1 q1=2 q2=- f0=T f1=T f2=T"],
+    "combine": ["sys=combine fixed=1 n=2 th=2 q0=1 q1=2 f0=T f1=T",
+                "sys=combine fixed=1 n=2 th=2 q0=1,3 q1=2 f0=T f1=T",
+                "sys=combine fixed=1 n=2 th=2 q0=1 q1=2 f0=E100 f1=T",
+                "sys=combine fixed=1 n=2 th=2 q0=- q1=2 f0=T f1=T"],
+}
+
+
+def thread_check(prop, tier, seed, t0, syss, kinds, real_only=()):
+    """C18/C19: member threads under the deterministic scheduler (harness/src/threads.rs, hooks ON)
+    against the interleaving model coq/theories/Threads.v"""
+    build(("plain", "hooked"))
+    audit = coq_audit(prop)
+    known = load_known()
+    hooked = BIN + "/cbharness-hooked"
+    # 0. the hooked build is behaviourally the plain build when no scheduler is installed
+    seq_ops = ["take", "merge", "combine"]
+    seq_scripts = corpus_scripts(seq_ops) + gen_scripts(seq_ops, seed, 3000 if tier == "quick" else 30000)
+    seq_model = run_model(seq_scripts)
+    seq_real = run_real(seq_scripts, "hooked")
+    seq_mis = [(a, m[0], r) for a, m, r in zip(seq_scripts, seq_model, seq_real) if m[0] != r]
+    # 1. schedules: corpus + every schedule of small configurations that the model says is
+    #    interesting (violating in the model -> must be replayed) + random ones
+    lines = []
+    cpath = V + "/corpus/threads.txt"
+    if os.path.exists(cpath):
+        lines += [l.strip() for l in open(cpath) if l.strip() and not l.startswith("#")
+                  and re.search(r"sys=(\w+)", l).group(1) in syss + list(real_only)]
+    explored = {}
+    model_bad = []
+    for sysname in syss:
+        cfgs = THREAD_EXPLORE[sysname] if tier == "thorough" else THREAD_EXPLORE[sysname][:3]
+        for cfg in cfgs:
+            r = sh([DRIVER, "texplore", "3"] + cfg.split(), timeout=3000)
+            if r.returncode != 0:
+                raise Fail("thread exploration failed: " + r.stderr[-1000:])
+            m = re.search(r"schedules=(\d+) violating=(\d+)", r.stdout)
+            explored[cfg] = dict(schedules=int(m.group(1)), violating_in_model=int(m.group(2)))
+            for bl in r.stdout.splitlines():
+                if bl.startswith("BAD "):
+                    sched = re.search(r"sched=(\S+)", bl).group(1)
+                    model_bad.append("%s sched=%s" % (cfg, sched))
+    lines += model_bad
+    # every schedule prefix of length L over two threads, on the real crate (the rest drains in index order)
+    import itertools
+    L = 10 if tier == "quick" else 14
+    n_exh = 0
+    for sysname in syss:
+        for cfg in [c for c in THREAD_EXPLORE[sysname] if "th=2" in c][:3 if tier == "quick" else 6]:
+            for seq in itertools.product("01", repeat=L):
+                lines.append("%s sched=%s" % (cfg, ",".join(seq)))
+                n_exh += 1
+    n_rand = 3000 if tier == "quick" else 60000
+    r = sh([DRIVER, "tgen", str(seed), str(n_rand)] + syss)
+    if r.returncode != 0:
+        raise Fail("thread script generation failed: " + r.stderr[-1000:])
+    lines += [l for l in r.stdout.splitlines() if l.strip()]
+    # real-only systems (take behind merge): same generator, renamed
+    ro_lines = []
+    for ro in real_only:
+        r = sh([DRIVER, "tgen", str(seed + 7), str(n_rand // 3), "merge"])
+        for l in r.stdout.splitlines():
+            if l.strip():
+                nmax = 1 + (len(ro_lines) % 3)
+                l2 = re.sub(r"sys=merge fixed=1 n=(\d+)", "sys=%s fixed=1 n=%d" % (ro, nmax), l)
+                # C19 quantifies over racing deliveries: members complete or just stop, they do not fail
+                l2 = re.sub(r"(f\d)=E\d+", r"\1=T", l2)
+                ro_lines.append(l2)
+
+    def work(ch):
+        if not ch:
+            return [], [], []
+        m = sh([DRIVER, "threads"], inp="\n".join(ch) + "\n")
+        h = sh([hooked, "threads"], inp="\n".join(ch) + "\n", timeout=3000)
+        if m.returncode != 0 or h.returncode != 0:
+            raise Fail("thread run failed: " + (m.stderr + h.stderr)[-1000:])
+        real = [x.strip() for x in h.stdout.split("\n")][:len(ch)]
+        mon = sh([DRIVER, "tmon"], inp="\n".join("%s | %s" % (a, b) for a, b in zip(ch, real)) + "\n")
+        return [x.partition(" || ")[0].strip() for x in m.stdout.split("\n")][:len(ch)], real, \
+            [x.split() for x in mon.stdout.split("\n")][:len(ch)]
+    model, real, mon = [], [], []
+    for m, h, mo in parallel_map(work, chunked(lines, 8)):
+        model += m
+        real += h
+        mon += mo
+
+    def work_ro(ch):
+        if not ch:
+            return [], []
+        h = sh([hooked, "threads"], inp="\n".join(ch) + "\n", timeout=3000)
+        real = [x.strip() for x in h.stdout.split("\n")][:len(ch)]
+        # take behind merge: the take checks on the trace (header rewritten for the monitor)
+        mon = sh([DRIVER, "tmon"], inp="\n".join("%s | %s" % (a, b) for a, b in zip(ch, real)) + "\n")
+        return real, [x.split() for x in mon.stdout.split("\n")][:len(ch)]
+    ro_real, ro_mon = [], []
+    for h, mo in parallel_map(work_ro, chunked(ro_lines, 8)):
+        ro_real += h
+        ro_mon += mo
+
+    mism = [(a, m, h) for a, m, h in zip(lines, model, real) if m != h]
+    viols = []
+    for a, h, vs in list(zip(lines, real, mon)) + list(zip(ro_lines, ro_real, ro_mon)):
+        bad = [v for v in vs if v.split(":")[0] in kinds]
+        if bad:
+            viols.append((a, h, bad))
+    out, status = [], 0
+    for a, h, bad in viols[:3]:
+        path = write_replay(prop, dict(kind="failing-history", property=prop, thread_script=a,
+                                       violations=bad, trace_on_crate=h, seed=seed,
+                                       how="./check %s --replay <this file> re-runs the schedule on the hooked crate" % prop))
+        out.append("VIOLATION property=%s replay=%s" % (prop, path))
+        status = 1
+    if not viols:
+        problem = None
+        if mism:
+            a, m, h = mism[0]
+            problem = dict(kind="correspondence-broken", what="thread model (coq/theories/Threads.v) and crate disagree",
+                           thread_script=a, model_trace=m, crate_trace=h, mismatching=len(mism))
+        elif seq_mis:
+            a, m, h = seq_mis[0]
+            problem = dict(kind="correspondence-broken", what="hooked build differs from the sequential model",
+                           script=a, model_trace=m, crate_trace=h)
+        elif audit["problems"]:
+            problem = dict(kind="proof-broken", problems=audit["problems"])
+        if problem:
+            problem["property"] = prop
+            path = write_replay(prop, problem)
+            out.append("VIOLATION property=%s replay=%s no-failing-input-found" % (prop, path))
+            status = 1
+    distinct = set(h for h in real + ro_real if " " in h)
+    cov = dict(
+        obligations=max(1, audit["obligations"]), discharged=audit["discharged"],
+        checker_cmd="coqc -Q coq/theories CB coq/theories/Properties/%s.v (after make -C coq)" % prop,
+        trusted_base=TRUSTED_BASE + ["interleaving model coq/theories/Threads.v (sequentially consistent, one scheduling point "
+                                     "per instrumented access and per sink delivery)",
+                                     "hooks /repo/src/verif_hooks.rs and the token-passing scheduler harness/src/threads.rs"],
+        theorems=audit["theorems"], axioms=audit["axioms"], audit_problems=audit["problems"],
+        evaluations=len(lines) + len(ro_lines), distinct_nontrivial=len(distinct),
+        rule="thread scripts = corpus + model counterexample schedules (none on the repaired tree) + random member queues, "
+             "endings and schedules from VERIF_SEED; each runs real OS threads through the hooked crate under the "
+             "token-passing scheduler and is compared with the Coq interleaving model event by event; the extracted "
+             "C18/C19 checks run on the crate's trace; distinct = distinct crate traces with at least two events",
+        traces_validated_against_impl=len(lines) - len(mism), correspondence_mismatches=len(mism),
+        model_exhaustive_exploration=explored,
+        real_exhaustive_schedule_prefixes=dict(length=L, runs=n_exh),
+        real_only_runs=len(ro_lines),
+        hooked_build_sequential_scripts=len(seq_scripts), hooked_build_sequential_mismatches=len(seq_mis),
+        samples=[dict(script=a, crate_trace=h) for a, h in list(zip(lines, real))[:2] + list(zip(lines, real))[-2:]],
+    )
+    write_evidence(prop, tier, seed, t0, cov, len(viols),
+                   assumptions=["sequentially consistent interleavings at the granularity of instrumented accesses",
+                                "passive sink; member threads stop once told to"])
+    for l in out:
+        print(l)
+    return status
+
+
+def treplay(prop, path):
+    payload = json.load(open(path))
+    build(("hooked",))
+    a = payload["thread_script"]
+    m = sh([DRIVER, "threads"], inp=a + "\n").stdout.strip()
+    h = sh([BIN + "/cbharness-hooked", "threads"], inp=a + "\n").stdout.strip()
+    vs = sh([DRIVER, "tmon"], inp="%s | %s\n" % (a, h)).stdout.strip()
+    print("script      :", a)
+    print("model       :", m)
+    print("crate trace :", h)
+    print("violations  :", vs or "-")
+    if any(v.split(":")[0] == prop for v in vs.split()) or (m.partition(" || ")[0].strip() != h and "takemerge" not in a):
+        print("VIOLATION property=%s replay=%s" % (prop, path))
+        return 1
+    return 0
+
+
+CUSTOM = {
+    "C06": c06_check,
+    "C18": lambda prop, tier, seed, t0: thread_check(prop, tier, seed, t0, ["merge", "combine"], ["C18"]),
+    "C19": lambda prop, tier, seed, t0: thread_check(prop, tier, seed, t0, ["take"], ["C19"], real_only=("takemerge",)),
+}
 
 
 def main(argv):
@@ -556,6 +953,8 @@ def main(argv):
     t0 = time.time()
     try:
         if a.replay:
+            if a.prop in ("C18", "C19"):
+                return treplay(a.prop, a.replay)
             return replay(a.prop, a.replay)
         if a.prop in CUSTOM:
             return CUSTOM[a.prop](a.prop, a.tier, a.seed, t0)
